@@ -564,6 +564,11 @@ func main() {
 		return
 	}
 	var scens []hx.Scenario
+	if *prop == "C05" && !r.Thorough() {
+		// the convergence scenarios are the longest executions of all checks: about 40 k of them at delay bound 1 take
+		// two to three minutes on 16 cores, more than the default quick budget
+		r.EnsureBudget(300 * time.Second)
+	}
 	switch *prop {
 	case "C18":
 		scens = c18Scenarios(r)
